@@ -45,6 +45,11 @@ type API struct {
 	EncodeImage    func(draw.Image, image.Image, int)
 
 	PrimR, PrimG, PrimB, White func() ciexyy.Color
+
+	// MutateToXYZ builds a Color with ColorFromXYZ(from), overwrites its exported R, G, B fields with rgb and
+	// converts it to XYZ; MutateToNRGBA does the same and encodes.  A Color is a plain value: what it was built
+	// from must not matter once its fields say something else.
+	MutateToXYZ func(from ciexyz.Color, rgb linear.RGB) ciexyz.Color
 }
 
 var Spaces = []API{
@@ -131,4 +136,27 @@ var Spaces = []API{
 func (a *API) FromNRGBAch(v uint8) float32 {
 	c, _ := a.FromNRGBA(color.NRGBA{R: v, A: 255})
 	return c.R
+}
+
+func init() {
+	Spaces[0].MutateToXYZ = func(from ciexyz.Color, rgb linear.RGB) ciexyz.Color {
+		c := srgb.ColorFromXYZ(from)
+		c.R, c.G, c.B = rgb.R, rgb.G, rgb.B
+		return c.ToXYZ()
+	}
+	Spaces[1].MutateToXYZ = func(from ciexyz.Color, rgb linear.RGB) ciexyz.Color {
+		c := adobergb.ColorFromXYZ(from)
+		c.R, c.G, c.B = rgb.R, rgb.G, rgb.B
+		return c.ToXYZ()
+	}
+	Spaces[2].MutateToXYZ = func(from ciexyz.Color, rgb linear.RGB) ciexyz.Color {
+		c := prophotorgb.ColorFromXYZ(from)
+		c.R, c.G, c.B = rgb.R, rgb.G, rgb.B
+		return c.ToXYZ()
+	}
+	Spaces[3].MutateToXYZ = func(from ciexyz.Color, rgb linear.RGB) ciexyz.Color {
+		c := displayp3.ColorFromXYZ(from)
+		c.R, c.G, c.B = rgb.R, rgb.G, rgb.B
+		return c.ToXYZ()
+	}
 }
